@@ -529,7 +529,7 @@ def cases(draw, max_steps=14, branch=True):
     frags = sorted({d[:1] for d in lits if d} | {d[-1:] for d in lits if d})
     lits = sorted(set(lits) | set(frags))
     # keep most histories satisfiable: a drawn constraint that would leave no model (judged as if every add went to one
-    # solver, which under-counts the models of each branch) is negated three times out of four
+    # solver, which under-counts the models of each branch) is usually redrawn, up to three times
     envs = [dict(zip(names, combo, strict=True)) for combo in itertools.product(*[doms[n] for n in names])]
     hist = []
     for _ in range(draw(st.integers(2, max_steps))):
@@ -539,9 +539,11 @@ def cases(draw, max_steps=14, branch=True):
             for c in stp["cs"]:
                 c = T(c)
                 left = [e for e in envs if ev(c, e)]
-                if not left and draw(st.integers(0, 3)):
-                    c = ("not", c)
+                tries = 0
+                while not left and tries < 3 and draw(st.integers(0, 5)):
+                    c = T(draw(constraints(names, lits)))  # negating instead makes Z3's sequence solver overrun far more often
                     left = [e for e in envs if ev(c, e)]
+                    tries += 1
                 envs = left or envs
                 cs.append(c)
             stp = {**stp, "cs": cs}
